@@ -105,6 +105,46 @@ def theorem_names(mod):
     return [prefix + n for n in re.findall(r"^theorem\s+(\S+)", src, re.M)]
 
 
+LOCK = os.path.join(LEAN, "theorems.lock.json")
+
+
+def theorem_statements(mod):
+    """{qualified theorem name: sha256 of its statement (text from `theorem` to the first `:=`, whitespace-normalised)}.
+    The lock pins what each property check counts as its obligations: deleting or restating a theorem does not go
+    unnoticed (harness/mklock.py rewrites the lock deliberately)."""
+    src = strip_lean_comments(open(module_path(mod)).read())
+    ns = re.search(r"^namespace\s+(\S+)", src, re.M)
+    prefix = ns.group(1) + "." if ns else ""
+    out = {}
+    for m in re.finditer(r"^theorem\s+(\S+)(.*?):=", src, re.M | re.S):
+        out[prefix + m.group(1)] = hashlib.sha256(" ".join(m.group(2).split()).encode()).hexdigest()[:16]
+    return out
+
+
+def lock_diff(mods):
+    """differences between the Props modules and the committed lock"""
+    try:
+        lock = json.load(open(LOCK))
+    except Exception:
+        return ["theorems.lock.json is missing or unreadable"]
+    out = []
+    for mod in mods:
+        cur = theorem_statements(mod) if os.path.exists(module_path(mod)) else {}
+        want = lock.get(mod)
+        if want is None:
+            out.append("%s is not in theorems.lock.json" % mod)
+            continue
+        for n in want:
+            if n not in cur:
+                out.append("%s: theorem missing" % n)
+            elif cur[n] != want[n]:
+                out.append("%s: statement differs from the locked one" % n)
+        for n in cur:
+            if n not in want:
+                out.append("%s: not in the lock" % n)
+    return out
+
+
 def audit(mod):
     """Returns dict: theorems -> axiom list, forbidden token hits (file, token)."""
     names = theorem_names(mod)
@@ -222,6 +262,8 @@ class Check:
             self.unproved_goals += goals
         for m in relevant_fail:
             self.broken.append(("build", m))
+        for d in lock_diff(self.props_modules):
+            self.broken.append(("theorem-lock", d))
         self.audit_info = {"obligations": obligations, "discharged": discharged, "axioms": detail}
         return not self.broken
 
